@@ -152,6 +152,8 @@ def run(ctx):
                 o = obsutil.make_obs(pe, rng, lay, "positive") * (0.6 ** t) * 8 + 0.0
             elif kind == "cosh":
                 o = obsutil.make_obs(pe, rng, lay, "positive") * 0.01 + math.cosh(0.35 * (t - T / 2))
+            elif kind == "sinh":
+                o = obsutil.make_obs(pe, rng, lay, "positive") * 0.002 + math.sinh(0.35 * (T / 2 - t)) + (0.5 if t == T / 2 else 0.0)
             else:
                 o = obsutil.make_obs(pe, rng, lay, "int")
                 if rng.random() < 0.15:
@@ -229,6 +231,8 @@ def run(ctx):
         if i >= nobs:
             # root-finder variants: even and odd T alike (the midpoint T/2 is a half-integer for odd T)
             fam, kind, T = "root", "cosh", [7, 8, 9, 10, 11, 13][i % 6]
+            if (i // 6) % 3 == 2 and (i // 18) % 3 != 2:
+                kind = "sinh"        # data that do have a sinh root on every timeslice away from the midpoint
         obs = base_obs(T, kind)
         pat = tuple(rng.random() < 0.85 for _ in range(T))
         corr = _mk_corr(pe, obs, pat)
@@ -275,9 +279,27 @@ def run(ctx):
                 if not ts:
                     continue
                 t = rng.choice(ts)
+                mid = [x for x in (T // 2 - 1, T // 2) if x in ts]
+                if v == "sinh" and mid and rng.random() < 0.75:
+                    t = rng.choice(mid)        # for odd T the middle timeslices are ordinary roots (nothing is filled in): judge them
                 ops = [obs[t], obs[t + 1]]
                 r = res.content[t][0]
                 vs = [float(o.value) for o in ops]
+                # no real solution by sign alone: sinh(m a) / sinh(m b) has the sign of a * b for every m > 0, cosh ratios are positive
+                a_, b_, r_ = t - T / 2, t + 1 - T / 2, vs[0] / vs[1]
+                if (v == "sinh" and a_ * b_ != 0 and (a_ * b_ > 0) != (r_ > 0)) or (v != "sinh" and r_ <= 0):
+                    ctx.fail("observable-level:defined-without-solution:m_eff:" + v,
+                             "m_eff('%s') is defined at t=%d (T=%d) although the ratio C(t)/C(t+1) = %r admits no real solution of the documented equation" % (v, t, T, r_),
+                             {"variant": v, "t": t, "T": T, "ratio": r_, "pattern": pat})
+                    continue
+                # no real solution by range: func(m a) / func(m b) runs monotonically from its m -> 0 limit (1 for cosh, a / b for sinh)
+                # to infinity (|a| > |b|) or to zero (|a| < |b|)
+                lim_ = 1.0 if v != "sinh" else a_ / b_
+                if (r_ - lim_) * (abs(a_) - abs(b_)) < -1e-6 * abs(lim_):
+                    ctx.fail("observable-level:defined-without-solution:ratio-out-of-range:m_eff",
+                             "m_eff('%s') is defined at t=%d (T=%d) although the ratio C(t)/C(t+1) = %r lies outside the range of the documented ratio (no real solution)" % (v, t, T, r_),
+                             {"variant": v, "t": t, "T": T, "ratio": r_, "limit_at_m_0": lim_, "pattern": pat})
+                    continue
                 sol = _cosh_root(v, t, T, vs[0] / vs[1])
                 if sol is None:
                     ctx.skip("root: independent solver found no bracket")
@@ -351,6 +373,25 @@ def run(ctx):
                    "replay": {"descr": descr, "operands": [obsutil.obs_struct(o) for o in ops], "impl": obsutil.obs_struct(r)}})
         ctx.count("identity:" + fam)
         ctx.case(("obs", name, T, pat, round(val, 9)), sample={"what": name, "spec_value": val, "impl_value": float(r.value), "spec_grads": gs[:4]})
+    # a fixed correlator whose ratios leave the range of the cosh / sinh ratio on several timeslices (growing in the first half)
+    fixed_vals = [1.0, 1.2, 1.1, 1.3, 1.0, 1.4, 1.2, 1.5]
+    fc = pe.Corr([obsutil.make_obs(pe, rng, {"ens": list(range(1, 8))}, "positive") * 0.001 + x for x in fixed_vals])
+    import warnings
+    for v in ("cosh", "periodic", "sinh"):
+        with warnings.catch_warnings():
+            warnings.simplefilter("ignore")
+            fr = fc.m_eff(v)
+        for t in range(7):
+            a_, b_ = t - 4.0, t + 1 - 4.0
+            if v == "sinh" and a_ * b_ == 0:
+                continue
+            r_ = float(fc.content[t][0].value) / float(fc.content[t + 1][0].value)
+            lim_ = 1.0 if v != "sinh" else a_ / b_
+            if (r_ - lim_) * (abs(a_) - abs(b_)) < -1e-6 * abs(lim_) and fr.content[t] is not None:
+                ctx.fail("observable-level:defined-without-solution:ratio-out-of-range:m_eff",
+                         "m_eff('%s') is defined at t=%d (T=8) although the ratio C(t)/C(t+1) = %r lies outside the range of the documented ratio (no real solution)" % (v, t, r_),
+                         {"variant": v, "t": t, "T": 8, "values": fixed_vals, "ratio": r_, "limit_at_m_0": lim_, "impl_value": float(fr.content[t][0].value)})
+            ctx.case(("range-fixed", v, t), nontrivial=True)
     if dc:
         bs, bcore = common.judge_cases(ctx, "C15d", HDR_D, "dcase", [c["term"] for c in dc], ["dcase_spec_ok", "dcase_spec_core"], shard=30)
         bad = [i for i in range(len(dc)) if (i in set(bcore) if dc[i]["core"] else i in set(bs))]
